@@ -1607,7 +1607,7 @@ class GraphProp:
              "zero_level": bool(nb >= 2 and domain in ("dense", "sparse") and r.random() < 0.12),
              "p_sparse": r.choice([0.0, 0.3, 0.5, 0.7]) if domain == "sparse" else 0.0,
              "sparse_fmts": r.choice([["csr"], ["csr"], ["csc"], ["coo", "csr"], ["csr", "dia", "csc"]]) if domain == "sparse" else None,
-             "mixed_dense": bool(domain == "sparse" and r.random() < 0.35),
+             "mixed_dense": bool(domain == "sparse" and (r.random() < 0.35 or profile.get("force_mixed_fd"))),
              "atol": r.choice([None, None, None, 1e-10, 1e-14]), "stored_zeros": bool(domain == "sparse" and r.random() < 0.4),
              "view_input": r.random() < 0.15, "h_recur": r.random() < 0.15,
              "idx_type": r.choice(["array", "array", "tuple", "list"]), "sparse_vecs": r.random() < 0.3, "op_name": r.random() < 0.3, "sectors": bool(nb >= 3 and domain in ("dense", "sparse") and r.random() < 0.25),
@@ -1633,7 +1633,10 @@ class GraphProp:
                     spec["solver"] = "custom"
                 elif y < 0.25 and nb == 2 and ch:
                     spec["solver"] = "legacy"
-            if domain == "sparse" and spec["fd"] is not None and r.random() < 0.5:
+            if profile.get("force_mixed_fd") and spec["fd"] is None:
+                spec["fd"] = sorted(r.sample(range(nb), r.randint(1, nb)))
+                spec["solver"] = "default"
+            if domain == "sparse" and spec["fd"] is not None and r.random() < 0.5 and not profile.get("force_mixed_fd"):
                 # the sparse solver branch divides by zero on kept pairs of a selected block (NaN results: a C01 matter);
                 # such worlds are kept in half of the cases - NaN must be history independent, too
                 spec["fd"] = None
